@@ -63,6 +63,18 @@ theorem okRecs_noise (a noise b : Bytes) (nl₁ nl₂ : UInt8) (h₁ : isNewline
   rw [okRecs_resync a _ nl₁ h₁, okRecs_resync noise b nl₂ h₂, hn, okRecs_resync a b nl₁ h₁]
   simp
 
+theorem okRecs_map_ok (ls : List (Line × Bytes)) :
+    okRecs (ls.map (fun p => Item.ok p.1.toRecord)) = ls.map (fun p => p.1.toRecord) := by
+  induction ls with
+  | nil => rfl
+  | cons x xs ih => rw [List.map_cons, okRecs_cons_ok, ih]; rfl
+
+/-- the records of a printed file -/
+theorem okRecs_printed (ls : List (Line × Bytes))
+    (h : ∀ p ∈ ls, p.1.WF ∧ p.2 ≠ [] ∧ ∀ b ∈ p.2, isNewline b = true) :
+    okRecs (records ((ls.map (fun p => p.1.print ++ p.2)).flatten)) = ls.map (fun p => p.1.toRecord) := by
+  rw [C05_file ls h, okRecs_map_ok]
+
 /-- For a mapping *file* printed from the grammar (well-formed lines, each followed by any
     non-empty mix of CR / LF), the mapper built from the bytes answers every line-based frame
     query with exactly what the retrace rule says about the printed lines — in particular the
@@ -72,16 +84,7 @@ theorem C01_file (ls : List (Line × Bytes)) (pm : Bool) (q : Frame) (hq : q.par
     (Mapper.ofBytes ((ls.map (fun p => p.1.print ++ p.2)).flatten) pm).remapFrame q =
       SpecR.framesByLine (ls.map (fun p => p.1.toRecord)) q := by
   unfold Mapper.ofBytes
-  rw [C05_file ls h]
-  have : okRecs (ls.map (fun p => Item.ok p.1.toRecord)) = ls.map (fun p => p.1.toRecord) := by
-    induction ls with
-    | nil => rfl
-    | cons x xs ih =>
-      simp only [List.map_cons, okRecs, List.filterMap_cons, Item.ok?]
-      have := ih (fun p hp => h p (List.mem_cons_of_mem _ hp))
-      simp only [okRecs] at this
-      rw [this]
-  rw [this]
+  rw [okRecs_printed ls h]
   exact C01_mapper _ pm q hq
 
 /-- line-ending independence, stated directly -/
